@@ -28,8 +28,8 @@ type Evidence struct {
 
 type knownFinding struct {
 	Property string `json:"property"`
-	ID       string `json:"id"`   // the named deviation / failing site that identifies the finding
-	What     string `json:"what"` // what fails
+	ID       string `json:"id"`     // the named deviation / failing site that identifies the finding
+	What     string `json:"what"`   // what fails
 	Status   string `json:"status"` // "open" | "fixed"
 	Commit   string `json:"commit,omitempty"`
 }
@@ -41,23 +41,23 @@ type Ctx struct {
 	Seed  int64
 	Start time.Time
 
-	mu            sync.Mutex
-	states        int64 // distinct states of the exhaustive model runs
-	transitions   int64 // transitions (states generated) of the exhaustive model runs
-	traces        int64 // traces recorded from the implementation and validated by TLC
-	events        int64 // trace events validated
-	evaluations   int64
-	nontrivial    map[string]bool
-	samples       []interface{}
-	extra         map[string]interface{}
-	assumptions   []string
-	violations    []string // VIOLATION lines
-	knownSeen     map[string]bool
-	inconclusive  []string
-	zeroCoverage  []string
-	exhaustive    bool
-	rule          string
-	known         []knownFinding
+	mu           sync.Mutex
+	states       int64 // distinct states of the exhaustive model runs
+	transitions  int64 // transitions (states generated) of the exhaustive model runs
+	traces       int64 // traces recorded from the implementation and validated by TLC
+	events       int64 // trace events validated
+	evaluations  int64
+	nontrivial   map[string]bool
+	samples      []interface{}
+	extra        map[string]interface{}
+	assumptions  []string
+	violations   []string // VIOLATION lines
+	knownSeen    map[string]bool
+	inconclusive []string
+	zeroCoverage []string
+	exhaustive   bool
+	rule         string
+	known        []knownFinding
 }
 
 func newCtx(prop, tier string, seed int64) *Ctx {
